@@ -1421,6 +1421,47 @@ class AsType(Elemwise):
             meta = clear_known_categories(meta)
         return meta
 
+    def _cast_is_lossless(self, columns=None):
+        # int/float -> wider int/float keeps every value; anything else (float -> int
+        # truncation, -> str, -> bool, extension dtypes) may change what a predicate sees
+        dtypes = self.operand("dtypes")
+        meta = self.frame._meta
+        if meta.ndim == 1:
+            pairs = [(meta.dtype, dtypes)]
+        else:
+            if columns is None:
+                columns = list(meta.columns)
+            if isinstance(dtypes, dict):
+                pairs = [(meta[c].dtype, dtypes[c]) for c in columns if c in dtypes]
+            else:
+                pairs = [(meta[c].dtype, dtypes) for c in columns]
+        for src, dst in pairs:
+            try:
+                dst = pd.api.types.pandas_dtype(dst)
+            except TypeError:
+                return False
+            if not (
+                isinstance(src, np.dtype)
+                and isinstance(dst, np.dtype)
+                and src.kind in "iuf"
+                and dst.kind in "iuf"
+                and np.can_cast(src, dst, casting="safe")
+            ):
+                return False
+        return True
+
+    def _filter_passthrough_available(self, parent, dependents):
+        if not super()._filter_passthrough_available(parent, dependents):
+            return False
+        # The predicate is evaluated below the cast only if the columns it reads keep
+        # their values
+        for e in parent.predicate.walk():
+            if any(dep._name == self._name for dep in e.dependencies()):
+                columns = e.columns if isinstance(e, Projection) else None
+                if not self._cast_is_lossless(columns):
+                    return False
+        return True
+
     def _simplify_up(self, parent, dependents):
         if isinstance(parent, Filter) and self._filter_passthrough_available(
             parent, dependents
